@@ -890,10 +890,15 @@ tp_task_bind_accept_create(tpt_p tpt,
 	if (0 != error) { /* Non fatal error. */
 		skt_opts->bit_vals &= ~(err_mask & SO_F_ACC_FILTER);
 	}
-	error = tp_task_accept_create(tpt, skt, flags, timeout,
+	/* On error skt closed below: do not let tp_task_destroy() close it too. */
+	error = tp_task_accept_create(tpt, skt,
+	    (flags & ~TP_TASK_F_CLOSE_ON_DESTROY), timeout,
 	    cb_func, udata, tptask_ret);
-	if (0 == error)
+	if (0 == error) {
+		tp_task_flags_add((*tptask_ret),
+		    (flags & TP_TASK_F_CLOSE_ON_DESTROY));
 		return (0);
+	}
 
 err_out: /* Error. */
 	close((int)skt);
